@@ -223,8 +223,62 @@ def _interleave(*lists):
     return out
 
 
+# ------------------------------------------------------------------------------------------------ family D
+def midexpr_cases():
+    """A throw in mid-expression caught by a try that sits INSIDE a construct keeping operands of its own on the
+    stack (for-in / for-of iterators, a switch discriminant, an array / call / object literal under construction)
+    of the SAME function: operands pending at the throw must be dropped exactly down to the try's own depth."""
+    out = []
+    throwers = {
+        "callee-throw": ("function T() { throw 7 }", "T()"),
+        "runtime-typeerror": ("var N = null;", "N.x"),
+        "native-rangeerror": ("", "'a'.repeat(-1)"),
+        "callback-throw": ("", "[1].map(function () { throw 8 })"),
+        "getter-throw": ("var G = {get g() { throw 9 }};", "G.g"),
+        "valueof-throw": ("var V = {valueOf: function () { throw 10 }};", "(V + 1)"),
+    }
+    contexts = ["r = 1 + %s;", "r = [1, 2, %s, 4];", "r = g3(1, %s, 3);", "r = {a: 1, b: %s};", "r = (1, 2) + (3 * %s);",
+                "r = q[%s];", "r = 'x' + (c ? %s : 0) + 'y';", "r = g3(g3(1, 2, %s), 5, 6);"]
+    handlers = {
+        "catch": "try { %(stmt)s } catch (e) { __out(typeof e === 'object' ? e.name : e) }",
+        "catch-finally": "try { %(stmt)s } catch (e) { __out(typeof e === 'object' ? e.name : e) } finally { __out(70) }",
+        "finally-outer": "try { try { %(stmt)s } finally { __out(71) } } catch (e2) { __out(typeof e2 === 'object' ? e2.name : e2) }",
+    }
+    enclosings = {
+        "for-in": "for (var k in {a: 1, b: 2, c: 3}) { %(h)s __out(k); }",
+        "for-of": "for (var v of [10, 20, 30]) { %(h)s __out(v); }",
+        "switch": "switch (sw) { case 1: %(h)s __out(11); case 2: __out(12); break; default: __out(13) }",
+        "nested-loops": "for (var k in {a: 1, b: 2}) { for (var v of [5, 6]) { %(h)s __out(k + v); } }",
+        "array-literal-iife": "r2 = [1, (function () { for (var k in {p: 1, q: 2}) { %(h)s __out(k) } return 2 })(), 3]; __out(r2.join());",
+        "for-in-with-finally-continue": "for (var k in {a: 1, b: 2, c: 3}) { try { %(h)s if (k == 'b') continue; __out(k) } finally { __out(72) } }",
+        "labelled-break": "L: for (var k in {a: 1, b: 2}) { for (var v of [1, 2]) { %(h)s if (v == 2) break L; __out(k + v) } }",
+    }
+    for en, etmpl in enclosings.items():
+        for tn, (tdecl, texpr) in throwers.items():
+            for ci, ctx in enumerate(contexts):
+                for hn, htmpl in handlers.items():
+                    body = etmpl % {"h": htmpl % {"stmt": ctx % texpr}}
+                    for scope in ("top", "function"):
+                        pre = "var c = true, sw = 1, r, r2, q = [1, 2]; function g3(a, b, d) { return a + b + d } " + tdecl + " "
+                        if scope == "top":
+                            src = pre + body + " __out(90); typeof r"
+                        else:
+                            src = pre + "function run() { " + body + " return 91 } __out(run()); __out(run()); typeof r"
+                        cid = "D|enc=%s|thrower=%s|ctx=%d|h=%s|scope=%s :: %s" % (en, tn, ci, hn, scope, src)
+                        out.append((cid, {"src": src, "tl": 30}))
+    return out
+
+
+def d_space():
+    return Space("c07_midexpr", RUN, midexpr_cases, oracle="table", batch=200,
+                 rule="a throw in mid-expression (6 throw kinds x 8 expression contexts) caught by a try (3 handler forms) nested inside "
+                      "7 constructs that keep their own operands on the stack (for-in, for-of, switch, nested loops, literal under "
+                      "construction, finally+continue, labelled break), at top level and inside a function called twice",
+                 bound="7 x 6 x 8 x 3 x 2")
+
+
 def spaces(tier, seed, all_strata=False):
-    core = a_core_spaces() + b_core_spaces() + [shift_space()]
+    core = a_core_spaces() + b_core_spaces() + [shift_space(), d_space()]
     native = a_native_strata()
     bst = b_strata()
     if tier == "thorough" or all_strata:
@@ -404,6 +458,11 @@ def _features(*names):
 
 
 def signature(sp, cid, payload, exp, obs):
+    if cid.startswith("D|"):
+        parts = dict(x.split("=", 1) for x in cid.split(" :: ")[0].split("|")[1:])
+        from .common import mismatch_kind
+        return "D|" + parts["enc"] + "|" + parts["thrower"], "mid-expression throw (%s) caught inside %s: %s" % (
+            parts["thrower"], parts["enc"], mismatch_kind(exp, obs))
     d = G.parse_id(cid)
     fam = d["family"]
     if fam == "C":
